@@ -532,6 +532,23 @@ func genBer(o genOpts, w *bufio.Writer) {
 			}
 		}
 	}
+	// lengths that are negative as int64 (eight length octets, top bit set), behind an EXPLICIT tag, inside a
+	// SEQUENCE OF and inside the CHF record
+	for _, probe := range []struct {
+		t      reflect.Type
+		params string
+		hex    string
+	}{
+		{reflect.TypeOf(int64(0)), "explicit,tagNum:0", "a088ffffffffffffffff"},
+		{reflect.TypeOf(int64(0)), "explicit,tagNum:0", "a00a0288fffffffffffffff5"},
+		{reflect.TypeOf([]int64{}), "", "300a0288fffffffffffffff5"},
+		{reflect.TypeOf([]int64{}), "", "300a0288fffffffffffffff6"},
+		{reflect.TypeOf([]int64{}), "", "3088fffffffffffffff6"},
+		{cdrTypes["CHFRecord"], "explicit,choice", "bf81480ca40a3088fffffffffffffff5"},
+		{cdrTypes["CHFRecord"], "", "bf81480ca40a3088fffffffffffffff5"},
+	} {
+		fmt.Fprintf(w, "ber U %s %s %s\n", tyStr(probe.t, 0), paramStr(probe.params), probe.hex)
+	}
 	// long-form lengths of 1..9 octets around a two-octet OCTET STRING
 	for k := 1; k <= 9; k++ {
 		lo := make([]byte, k)
